@@ -44,15 +44,15 @@ var intrinsicTable map[string]intrinsicFn
 
 func init() {
 	intrinsicTable = map[string]intrinsicFn{
-		"(*sync.Mutex).Lock":      lockIntr(true, false),
-		"(*sync.Mutex).Unlock":    lockIntr(false, false),
-		"(*sync.RWMutex).Lock":    lockIntr(true, false),
-		"(*sync.RWMutex).Unlock":  lockIntr(false, false),
-		"(*sync.RWMutex).RLock":   lockIntr(true, true),
-		"(*sync.RWMutex).RUnlock": lockIntr(false, true),
-		"(*sync.Map).Load":        syncMapLoad,
-		"(*sync.Map).Store":       syncMapStore,
-		"(*sync.Map).Delete":      syncMapDelete,
+		"(*sync.Mutex).Lock":                lockIntr(true, false),
+		"(*sync.Mutex).Unlock":              lockIntr(false, false),
+		"(*sync.RWMutex).Lock":              lockIntr(true, false),
+		"(*sync.RWMutex).Unlock":            lockIntr(false, false),
+		"(*sync.RWMutex).RLock":             lockIntr(true, true),
+		"(*sync.RWMutex).RUnlock":           lockIntr(false, true),
+		"(*sync.Map).Load":                  syncMapLoad,
+		"(*sync.Map).Store":                 syncMapStore,
+		"(*sync.Map).Delete":                syncMapDelete,
 		"github.com/thoas/go-funk.Contains": funkContains,
 		"github.com/thoas/go-funk.Filter":   funkFilter,
 		"sort.Slice":                        sortSlice,
